@@ -519,7 +519,9 @@ def case_viewonly(rng):
         steps = [scr]
         for c in range(rng.randint(1, 3)):
             k = rng.choice(list(range(npw)) + [-1, npw])
-            steps += handshake(rng, c, scr, minor=rng.choice([3, 7, 8]), pw=k)
+            # the application's newClientHook may have marked the connection view-only BEFORE it authenticates:
+            # view-only = application choice OR password position
+            steps += handshake(rng, c, scr, minor=rng.choice([3, 7, 8]), pw=k, vo=rng.randrange(2))
             for st in msgs_for(rng, c, rng.randint(2, 5), others=False):
                 steps += [st, dict(k="p", n=1)]
     elif how == "hook":
@@ -537,6 +539,20 @@ def case_viewonly(rng):
             for st in msgs_for(rng, 0, rng.randint(1, 4), others=False):
                 steps += [st, dict(k="p", n=1)]
     return Case("viewonly", steps)
+
+
+def case_vo_matrix(rng, npw, firstvo, k, appvo, minor):
+    """password list with the first view-only index at every position x application view-only choice x right/wrong
+    password: one connection, then one message of every input kind (real rfbCheckPasswordByList, real DES)"""
+    scr = screen_step(npw=npw, firstvo=firstvo)
+    steps = [scr] + handshake(rng, 0, scr, minor=minor, pw=k, vo=appvo)
+    for st in (dict(k="msg", c=0, data=m_key(1, 0x61).hex(), sem=["key", 1, 0x61]),
+               dict(k="msg", c=0, data=m_ptr(1, 3, 4).hex(), sem=["ptr", 1, 3, 4]),
+               dict(k="msg", c=0, data=m_cut(b"abc").hex(), sem=["cut", b"abc".hex()]),
+               dict(k="msg", c=0, data=m_ptr(0, 5, 6).hex(), sem=["ptr", 0, 5, 6])):
+        with_frags(rng, st)
+        steps += [st, dict(k="p", n=1)]
+    return Case("vomatrix", steps)
 
 
 def case_pointer(rng):
@@ -718,8 +734,18 @@ def case_defer(rng):
     scr = screen_step(deferptr=d)
     steps = [scr] + handshake(rng, 0, scr, frag=False)
     mask = 0
+    def scale_step():
+        n = rng.choice([1, 2, 2, 3, 4, 5, 10])
+        st = dict(k="msg", c=0, data=m_scale(n, rng.random() < 0.5).hex(), sem=["scale", n])   # SetScale or PalmVNCSetScaleFactor
+        with_frags(rng, st)
+        return [st, dict(k="p", n=1)]
+    if rng.random() < 0.6:
+        steps += scale_step()            # a scaled client with coalescing on: remembered positions are unscaled ones
     for _ in range(rng.randint(2, 14)):
         r = rng.random()
+        if r < 0.06:
+            steps += scale_step()
+            continue
         if r < 0.65:
             if rng.random() < 0.3:
                 mask = rng.choice([0, 1, 2, 4, 1])
@@ -741,9 +767,23 @@ def case_defer(rng):
 def judge_defer(case, impl_lines):
     """coalescing on: once every interval has expired, the last position (and mask) sent must be the last one delivered"""
     last = None
+    W = H = fw = fh = None
+    mapped = []          # every pointer message as the application must see it: (mask, unscaled x, unscaled y)
     for s in case.steps:
-        if s["k"] == "msg" and s["sem"][0] == "ptr":
-            last = s["sem"]
+        if s["k"] == "screen":
+            W, H = s["w"], s["h"]
+            fw, fh = W, H
+        elif s["k"] == "msg" and s["sem"][0] == "scale":
+            n = s["sem"][1]
+            if n == 0 or W // n == 0 or H // n == 0:
+                return None, {}
+            fw, fh = W // n, H // n
+        elif s["k"] == "msg" and s["sem"][0] == "ptr":
+            m, x, y = s["sem"][1], s["sem"][2], s["sem"][3]
+            if (fw, fh) != (W, H):
+                x, y = exact_unscale(x, fw, W), exact_unscale(y, fh, H)
+            last = ["ptr", m, x, y]
+            mapped.append((m, x, y))
     evs = [e for e in events_of(impl_lines) if e.startswith("P:")]
     fin = parse_line(impl_lines[-1]) if impl_lines else None
     if last is None or fin is None or not any(c[0] == "0" and c[1] == "4" and c[2] == "0" for c in fin[2]):
@@ -752,7 +792,7 @@ def judge_defer(case, impl_lines):
     if not evs or evs[-1] != want:
         # the defect on record: the newest message WAS delivered, and afterwards an older remembered position
         # comes out with the newest mask.  Anything else (e.g. the last position never arrives) is something new.
-        older = set((s2["sem"][2], s2["sem"][3]) for s2 in case.steps if s2["k"] == "msg" and s2["sem"][0] == "ptr")
+        older = set((mx, my) for (_, mx, my) in mapped)
         stale = False
         if evs and want in evs:
             f = evs[-1].split(":")
@@ -815,6 +855,12 @@ def gen_cases(ctx):
         add(case_viewonly(rng))
     for _ in range(50 * mult):
         add(case_pointer(rng))
+    # view-only = application choice OR password position: the whole matrix, real password-list authentication
+    for npw in (1, 2, 3):
+        for firstvo in range(npw + 1):
+            for k in range(-1, npw + 1):
+                for appvo in (0, 1):
+                    add(case_vo_matrix(rng, npw, firstvo, k, appvo, rng.choice([3, 7, 8])), recut=False)
     for _ in range(40 * mult):
         add(case_scale(rng))
     for _ in range(40 * mult):
@@ -1212,7 +1258,7 @@ def ext_viewonly_part(ctx):
     import C18
     os.makedirs(os.path.join(vlib.VERIF, "build", "ocaml", "C18"), exist_ok=True)
     os.makedirs(os.path.join(vlib.BUILD, "ocaml", "C18"), exist_ok=True)
-    cexe = vlib.build_harness("vdrv_clip", ["vdrv_clip.c"], wraps=("select", "gettimeofday"), client=True)
+    cexe = vlib.build_harness("vdrv_clip", ["vdrv_clip.c"], wraps=C18.WRAPS, client=True)
     ok, out = vlib.coq_make(["Extract/Extract_C18.vo"])
     src = os.path.join(vlib.VERIF, "build", "ocaml", "C18")
     dst = os.path.join(vlib.BUILD, "ocaml", "C18")
